@@ -97,6 +97,9 @@ def gen_ops(rng, sess, usable, tier):
         good = usable[cube]
         if r < 0.55 or i == n_ops - 1:
             sub = rng.sample(good, rng.randint(1, len(good)))
+            if rng.random() < 0.15:
+                # the same aggregate object twice in one pass
+                sub.insert(rng.randrange(len(sub) + 1), rng.choice(sub))
             mode = rng.choices(("serial", "pooled", "interrupt-serial", "interrupt-pooled"), (5, 4, 1, 1))[0]
             if i == n_ops - 1 and mode.startswith("interrupt"):
                 mode = "serial"
@@ -130,7 +133,7 @@ def gen_index_op(rng, sess):
     n = shape[0]
     methods = ["copy", "slices1d", "common_rowids", "interactions"]
     if nd <= 2:
-        methods += ["to_array", "filtered", "reindexed", "observers", "column_stack"]
+        methods += ["to_array", "filtered", "reindexed", "observers", "column_stack", "from_array"]
     if nd == 2:
         methods += ["collapsed", "sliced"]
     if nd == 3:
@@ -149,6 +152,10 @@ def gen_index_op(rng, sess):
     elif m == "column_stack":
         op["new_common"] = rng.choice((None, 0, 1, 2))
         op["copy"] = rng.random() < 0.5
+    elif m == "from_array":
+        op["counts"] = rng.random() < 0.6
+        op["common"] = rng.choice((None, 0, 1, 2, 3, 7))
+        op["mapping"] = [[v, rng.randrange(4)] for v in range(8)] if rng.random() < 0.4 else None
     return op
 
 
@@ -325,6 +332,8 @@ class PuritySession:
             self.after_interrupt = False
         if len(idxs) > 1:
             self.count("probe_several_aggregates_in_one_pass")
+        if len(set(idxs)) < len(idxs):
+            self.count("probe_same_aggregate_object_twice_in_one_pass")
         return where
 
     def do_shortcut(self, op):
@@ -423,6 +432,20 @@ class PuritySession:
                     for key in list(dict.keys(idx))[:3]:
                         idx.get(key, None, True)
                     idx.get((idx.common,) + ((0,) if nd == 2 else ()), None, True)
+                elif m == "from_array" and nd <= 2:
+                    import catii
+
+                    values = idx.to_array(dtype=int)
+                    vals, cnts = numpy.unique(values, return_counts=True)
+                    counts = dict(zip(vals.tolist(), cnts.tolist())) if op["counts"] else None
+                    mapping = dict(map(tuple, op["mapping"])) if op["mapping"] else None
+                    snaps = model.snapshot([values, counts, mapping])
+                    try:
+                        catii.iindex.from_array(values, counts=counts, common=op["common"], mapping=mapping)
+                    except Exception:
+                        self.count("index_method_raised_not_judged")
+                    if model.snapshot([values, counts, mapping]) != snaps:
+                        raise Violation(PROP, "argument-mutated", where, "from_array changed its values / counts / mapping argument")
                 elif m == "column_stack" and nd <= 2:
                     others = [d for d in dims if len(d.shape) <= 2]
                     lst = [idx] + others[:1]
